@@ -10,6 +10,17 @@ NOTE = ("Trusted: Lean 4.33 kernel; axioms propext/Classical.choice/Quot.sound o
         "tolerances; CPython/numpy/pint/scipy. Modelled rather than verified: the Python code itself.")
 
 CHECKS = {
+    "C08": {
+        "engine": "link",
+        "text": ("Lean theorems over the link model (served entry is a nearest publication; exactly the requests in "
+                 "[oldest, newest] are served, others get a time error; prepare's shape normalisation yields 1 :: data_shape "
+                 "with flat payloads landing in grid order; pulled values are the affine unit conversion of the nearest "
+                 "publication, never delivered for incompatible units; same-buffer publications refused), tied to "
+                 "sdk/output.py, sdk/input.py, data/tools/core.py by a differential correspondence run over real "
+                 "Output>>Input links plus an implementation-only oracle (brute-force nearest, exact fractions)."),
+        "design_ref": "5/C08",
+        "technique": "Lean 4 proof (induction over the publication history; case analysis of prepare) + model/implementation correspondence",
+    },
     "C09": {
         "engine": "link",
         "text": ("Lean theorems over the output-history model (refinement of the bounded output to an output with "
